@@ -3,6 +3,7 @@ package main
 import (
 	"fmt"
 	"math/rand"
+	"strings"
 	"sync"
 
 	seccomp "github.com/elastic/go-seccomp-bpf"
@@ -195,6 +196,26 @@ func c03() {
 			}
 			p = vlib.GenMixed(r, t, mp)
 		}
+		// non-canonical spellings of an operation (other letter case, surrounding white space): such a policy may be
+		// rejected; if it is accepted, the condition must count with the meaning of the documented name
+		canon := vlib.SpecOf(p, t.Name)
+		if i >= len(cat) && i%6 == 5 {
+			var where [][3]int
+			for gi, g := range p.Syscalls {
+				for ei, nc := range g.NamesWithCondtions {
+					for ci := range nc.Conditions {
+						where = append(where, [3]int{gi, ei, ci})
+					}
+				}
+			}
+			if len(where) > 0 {
+				w := where[r.Intn(len(where))]
+				op := string(p.Syscalls[w[0]].NamesWithCondtions[w[1]].Conditions[w[2]].Operation)
+				variant := []string{strings.ToLower(op), strings.ToUpper(op), " " + op, op + "\n", op + " ", "\t" + op + "\r\n"}[r.Intn(6)]
+				p.Syscalls[w[0]].NamesWithCondtions[w[1]].Conditions[w[2]].Operation = seccomp.Operation(variant)
+				run.Count("policies_with_noncanonical_operation_spelling", 1)
+			}
+		}
 		spec := vlib.SpecOf(p, t.Name)
 		c := vlib.Compile(p, t)
 		run.Count("policies", 1)
@@ -203,7 +224,10 @@ func c03() {
 			return
 		}
 		run.Count("programs", 1)
-		ref := vlib.NewRef(spec.Policy(), t)
+		if fmt.Sprint(spec) != fmt.Sprint(canon) {
+			run.Count("noncanonical_operation_spelling_accepted", 1)
+		}
+		ref := vlib.NewRef(canon.Policy(), t)
 		nrs := vlib.NrClasses(c, ref)
 		var nrsOK []uint32
 		for _, nr := range nrs {
@@ -211,8 +235,9 @@ func c03() {
 				nrsOK = append(nrsOK, nr)
 			}
 		}
-		evs := c03EventsRef(r, p, t, nrsOK, ref)
-		pool0 := vlib.AdversarialPool(p, t)
+		pc := canon.Policy() // events are derived from the canonical spelling
+		evs := c03EventsRef(r, pc, t, nrsOK, ref)
+		pool0 := vlib.AdversarialPool(pc, t)
 		cov := vlib.NewCov(len(c.Raw))
 		local := map[string]int64{}
 		for _, e := range evs {
